@@ -150,6 +150,31 @@ def rule_a(ctx):
     ok = (am.has(rd.node, f"npzdata = np.load({rd.params[0]}, allow_pickle=True)") is not None and am.has(rd.node, "array = npzdata['array']") is not None
           and am.has(rd.node, "metadata = npzdata['metadata'].item()") is not None)
     ctx.ob(R, rd.qname, "reader reads the names 'array' and 'metadata'", ok, str(am.show()), rd.node)
+    # what was read is what the constructor gets: neither name is modified or rebound on the way
+    AN, MN = am.actual("array") or "array", am.actual("metadata") or "metadata"
+    touched = []
+    for x in ast.walk(rd.node):
+        tg = []
+        if isinstance(x, ast.Assign):
+            tg = x.targets
+        elif isinstance(x, (ast.AugAssign, ast.AnnAssign)):
+            tg = [x.target]
+        elif isinstance(x, ast.Delete):
+            tg = x.targets
+        for t in tg:
+            b = t
+            while isinstance(b, (ast.Subscript, ast.Attribute)):
+                b = b.value
+            if isinstance(b, ast.Name) and b.id in (AN, MN) and not (isinstance(t, ast.Name) and isinstance(x, ast.Assign) and (am.eq(x, "array = npzdata['array']") or am.eq(x, "metadata = npzdata['metadata'].item()"))):
+                touched.append(norm(x)[:70])
+        if isinstance(x, ast.Call) and isinstance(x.func, ast.Attribute) and isinstance(x.func.value, ast.Name) and x.func.value.id in (AN, MN) \
+                and x.func.attr in ("pop", "popitem", "update", "clear", "setdefault", "__setitem__", "__delitem__", "fill", "sort", "resize", "astype", "byteswap"):
+            if x.func.attr != "astype" or True:
+                touched.append(norm(x)[:70])
+    ctor = [c for c in ast.walk(rd.node) if isinstance(c, ast.Call) and norm(c.func) in ("darsia.OpticalImage", "darsia.Image", "darsia.ScalarImage")]
+    pass_ok = len(ctor) >= 1 and all([norm(a) for a in c.args] == [AN] and [(k.arg, norm(k.value)) for k in c.keywords] == [(None, MN)] for c in ctor)
+    ctx.ob(R, rd.qname, "the array and the metadata dict read from the file reach the constructor unmodified", pass_ok and not touched,
+           f"modified on the way: {touched}" if touched else str([norm(c)[:60] for c in ctor]), rd.node)
     im = m.func(IMR, "imread")
     am2 = AM(im)
     route = [n for n in ast.walk(im.node) if isinstance(n, ast.If) and am2.eq(n.test, "suffix == '.npz'")]
@@ -370,8 +395,73 @@ def rule_d(ctx):
     ctx.floor(R, 5)
 
 
+def rule_e(ctx):
+    R = "C18.e"
+    ctx.rule(R, "directly restored attributes are stored verbatim: whenever load assigns self.A from key K of the file (possibly through "
+             ".item() / int() / a nested config dict), save writes exactly self.A under K -- a value converted on the way out (np.dtype(.), "
+             "str(.), a rounded copy) reloads as a different object and the reloaded correction need not behave like the saved one")
+    m = ctx.model
+    PEEL_CALLS = {"int", "float", "str", "bool", "list", "tuple", "np.array", "np.asarray"}
+    n = 0
+    for k, s, l in savable(m):
+        sv = [c for c in ast.walk(s.node) if isinstance(c, ast.Call) and norm(c.func) == "np.savez"]
+        if len(sv) != 1:
+            continue
+        written = {}
+        for kk in sv[0].keywords:
+            if kk.arg is None:
+                continue
+            written[(kk.arg,)] = kk.value
+            if isinstance(kk.value, ast.Dict):
+                for dk, dv in zip(kk.value.keys, kk.value.values):
+                    if isinstance(dk, ast.Constant):
+                        written[(kk.arg, dk.value)] = dv
+        env = {}
+        for st in ast.walk(l.node):
+            if isinstance(st, ast.Assign) and len(st.targets) == 1 and isinstance(st.targets[0], ast.Name):
+                env.setdefault(st.targets[0].id, []).append(st.value)
+
+        def keypath(e, depth=0):
+            """Key path in the file that expression e reads verbatim, or None."""
+            if depth > 6:
+                return None
+            while True:
+                if isinstance(e, ast.Call) and isinstance(e.func, ast.Attribute) and e.func.attr == "item" and not e.args:
+                    e = e.func.value
+                elif isinstance(e, ast.Call) and norm(e.func) in PEEL_CALLS and len(e.args) == 1:
+                    e = e.args[0]
+                else:
+                    break
+            if isinstance(e, ast.Name) and len(env.get(e.id, [])) == 1:
+                return keypath(env[e.id][0], depth + 1)
+            if isinstance(e, ast.Call) and norm(e.func) == "np.load":
+                return ()
+            if isinstance(e, ast.Subscript) and isinstance(e.slice, ast.Constant) and isinstance(e.slice.value, str):
+                base = keypath(e.value, depth + 1)
+                return None if base is None else base + (e.slice.value,)
+            if isinstance(e, ast.Call) and isinstance(e.func, ast.Attribute) and e.func.attr == "get" and e.args and isinstance(e.args[0], ast.Constant):
+                base = keypath(e.func.value, depth + 1)
+                return None if base is None else base + (e.args[0].value,)
+            return None
+
+        for st in ast.walk(l.node):
+            if isinstance(st, ast.Assign) and len(st.targets) == 1 and self_attr(st.targets[0]):
+                A = self_attr(st.targets[0])
+                kp = keypath(st.value)
+                if not kp:
+                    continue
+                n += 1
+                ctx.instance(R)
+                w = written.get(kp)
+                forms = (f"self.{A}", f"self.{A} if hasattr(self, '{A}') else None")
+                ctx.ob(R, s.qname, f"{k.name}: key {'.'.join(kp)} restored into self.{A} is written as self.{A}", w is not None and norm(w) in forms,
+                       f"save writes `{norm(w) if w is not None else None}` under {'.'.join(kp)}; load assigns it to self.{A} unchanged", w if w is not None else s.node)
+    ctx.floor(R, 6)
+
+
 def run(ctx):
     rule_a(ctx)
     rule_b(ctx)
     rule_c(ctx)
     rule_d(ctx)
+    rule_e(ctx)
